@@ -599,13 +599,33 @@ inline void prop_c10(const vf::Case& c, Ctx& ctx)
                 w.reset();
                 bool cr2 = true;
                 e::engine_schema ld2{};
-                e::engine_schema other = is_v2(schema) ? e::engine_schema::schema_2_18_0 : e::engine_schema::schema_1_6_0;
+                // the schema argument only matters when nothing exists: any of the 18 (same or other generation) must lead to a load
+                e::engine_schema other = schemas()[h.below(schemas().size())];
+                ctx.label(is_v2(other) == is_v2(schema) ? "create_or_load:same-generation-arg" : "create_or_load:other-generation-arg");
                 {
                     dj::database db2 = e::create_or_load_database(dir, other, cr2, ld2);
                     VF_CHECK(!cr2, hist << ": create_or_load_database on an existing library reports created == true");
                     VF_CHECK(ld2 == schema, hist << ": create_or_load_database loaded schema " << sname(ld2) << ", the library was created as " << sname(schema));
                     std::string after = observe(db2, is_v2(schema));
                     VF_CHECK(before == after, hist << ": state differs after create_or_load: " << first_diff_line(before, after));
+                }
+                {
+                    // and the directory is still one loadable library afterwards
+                    e::engine_schema ld3{};
+                    std::string what;
+                    try
+                    {
+                        dj::database db3 = e::load_database(dir, ld3);
+                        VF_CHECK(ld3 == schema, hist << ": after create_or_load the library loads as " << sname(ld3));
+                    }
+                    catch (const vf::Fail&)
+                    {
+                        throw;
+                    }
+                    catch (const std::exception& ex)
+                    {
+                        VF_CHECK(false, hist << ": after create_or_load the library can no longer be loaded: " << ex.what());
+                    }
                 }
                 ctx.label("create_or_load:load");
                 ++reopens;
